@@ -75,3 +75,22 @@ package adder
 //@   counts addManyN when true
 //@   counts addManyOK when err == nil
 //@   modifies rpcN, rpcLastSvc, rpcLastMethod, rpcLastArg
+
+// ---- C13 "delivers ... a set of blocks that is closed under links from the returned root": adding a CAR hands every
+// block it decodes - the root's own block included, whatever kind of node it is - to the DAG service, and stops with
+// the first failure ----
+//@ ghost var carDecodedN int
+//@ ghost var carDeliveredN int
+//@ extern ipld.Decode(block)
+//@   counts carDecodedN when err == nil
+//@   modifies nothing
+//@ extern ipld.NodeAdder.Add(ctx, nd)
+//@   counts carDeliveredN when true
+//@   modifies nothing
+//@ func (ca *carAdder) Add
+//@   property C13
+//@   ensures [every-decoded-block-delivered] err == nil ==> carDeliveredN - old(carDeliveredN) == carDecodedN - old(carDecodedN)
+//@   loop 1 (for)
+//@     invariant carDeliveredN - old(carDeliveredN) == carDecodedN - old(carDecodedN)
+//@   at_send ca.output assert [reports-the-car-root] same(root, carReader.Header.Roots[0])
+//@   modifies *
